@@ -466,21 +466,27 @@ func genPicture(r *prng.R) *picture {
 
 // regular reports whether the integer grouping is regular and its size.
 func (p *picture) regular() (int, bool) {
+	// XPath F&O 4.7.4: grouping is regular iff there is a G such that every
+	// separator stands at a multiple of G (counted in digits from the right)
+	// and every multiple of G inside the integer part of the picture has one
 	if len(p.intSeps) == 0 {
 		return 0, false
 	}
 	g := p.intSeps[0]
+	has := map[int]bool{}
 	for _, s := range p.intSeps {
-		g = gcd(g, s)
-	}
-	for i := range p.intSeps {
-		found := false
-		for _, s := range p.intSeps {
-			if s == g*(i+1) {
-				found = true
-			}
+		if s < g {
+			g = s
 		}
-		if !found {
+		has[s] = true
+	}
+	for _, s := range p.intSeps {
+		if s%g != 0 {
+			return 0, false
+		}
+	}
+	for m := g; m < p.intOpt+p.intMand; m += g {
+		if !has[m] {
 			return 0, false
 		}
 	}
